@@ -25,7 +25,7 @@ PROPS = {
             "ispec.buildspec), and each specification hands its setup function exactly the named fields that function can "
             "take; (R-DECODE) ispec.decode guards, slices and records the fixed part with one and the same bound and hands variable-length specs the whole rest of the input. Does NOT decide that buildspec computes fix/mask/extractors as documented for arbitrary format strings (interpreter behaviour)."
         ),
-        rules=[(R_spec.r_fmt, Q), (R_spec.r_sig, Q), (R_spec.r_decode, Q)],
+        rules=[(R_spec.r_fmt, Q), (R_spec.r_sig, Q), (R_spec.r_decode, Q), (R_c11.r_globalw_decode, Q)],
         exhaustive=True,
         level_text="partial (data half): every one of the ~5170 shipped ispec format strings is checked, exhaustively, to be a well-formed sentence of the documented format language and to deliver exactly the keyword arguments its setup function accepts; static table/signature cross-check, so it covers all specifications where the tests decode ~150 words",
         level_note="Trusted: CPython ast; vstat's format interpreter (written from the ispec docstring, validated once against buildspec's fix/mask on all 5073 importable specs by tools/validate_ispecmodel.py). Not decided: that ispec.buildspec/decode themselves extract the documented bits for all words and both fetch endiannesses.",
@@ -44,7 +44,7 @@ PROPS = {
             "read but never stored, (4) spec/setup-function keyword mismatches (TypeError on every matching word). "
             "Does NOT decide totality over all byte strings (type errors, KeyError on computed keys, arithmetic on wrong kinds)."
         ),
-        rules=[(R_c17.r_import_c17, Q), (R_c17.r_name_c17, Q), (R_c17.r_modattr_c17, Q), (R_c17.r_priv_c17, Q), (R_c17.r_arity_c17, Q), (R_c17.r_dupkey_c17, Q), (R_c17.r_unbound_c17, T), (R_spec.r_sig, Q), (R_spec.r_dupfmt, Q), (R_c06.r_sizetab, Q)],
+        rules=[(R_c17.r_import_c17, Q), (R_c17.r_name_c17, Q), (R_c17.r_modattr_c17, Q), (R_c17.r_priv_c17, Q), (R_c17.r_arity_c17, Q), (R_c17.r_dupkey_c17, Q), (R_c17.r_unbound_c17, T), (R_spec.r_sig, Q), (R_spec.r_dupfmt, Q), (R_c06.r_sizetab, Q), (R_spec.r_boundidx, Q)],
         level_text="partial: static scope/signature analysis over every function reachable from decode, format and execute entry points of all ISAs (~3000+ functions); each report is a definite NameError/AttributeError/TypeError for every input that reaches the line; the tests decode ~150 words and execute a handful of semantics",
         level_note="Trusted: CPython ast; by-name callee resolution (no type inference), so attribute typos on non-module objects and implicit exceptions (IndexError/KeyError/TypeError on values) are out of reach. Unresolvable namespaces and deliberate bare-name crash markers are listed as undecided, not alarmed.",
         technique="static scope resolution + call-graph reachability + spec/signature cross-check over the AST",
@@ -96,7 +96,7 @@ PROPS = {
             "(R-MAXLEN) cpu modules with '*'/'&' specs set disassemble.maxlen explicitly; (R-FMT) every spec has LEN>=8 "
             "(length >= 1). Does NOT decide equality of d(b), d(b[:n]), d(b[:n]+t) for all inputs nor over-reads inside ispec.decode."
         ),
-        rules=[(R_c05.r_pair, Q), (R_c05.r_tailchk, Q), (R_c11.r_rollback, Q), (R_spec.r_decode, Q), (R_spec.r_maxlen, Q), (R_spec.r_fmt, Q)],
+        rules=[(R_c05.r_pair, Q), (R_c05.r_tailchk, Q), (R_c11.r_rollback, Q), (R_spec.r_decode, Q), (R_spec.r_maxlen, Q), (R_spec.r_fmt, Q), (R_c11.r_globalw_decode, Q)],
         level_text="partial: def-use pairing and dominance on the CFG of all 221 tail-taking functions (69 with direct reads, 65 bounded slices) of every ISA; the tests decode a handful of ModRM forms and never a truncated immediate",
         level_note="Trusted: tail variables are tracked by the enumerated rebinding idioms (pack(), open slices, tuple split, helper return); crysp Bits slicing semantics (short slices do not raise); a piece that is only inspected in tests is look-ahead (undecided, not alarmed).",
         technique="def-use pairing + dominator/must-pass-through queries on statement CFGs, table lint of cpu modules",
@@ -151,7 +151,7 @@ PROPS = {
             "simplifies (with caller-chosen, possibly widening options) only expressions of maps it created itself. Does NOT decide "
             "equivalence of in-place simplification nor printing/equality after unpickling."
         ),
-        rules=[(R_cas.r_oppure, Q), (R_cas.r_aliasret, Q), (R_cas.r_own_mapper, Q), (R_cas.r_sizeimm, Q), (R_cas.r_slotstate, Q), (R_own.r_ownmerge, Q)],
+        rules=[(R_cas.r_oppure, Q), (R_cas.r_aliasret, Q), (R_cas.r_own_mapper, Q), (R_cas.r_sizeimm, Q), (R_cas.r_slotstate, Q), (R_own.r_ownmerge, Q), (R_own.r_mappure, Q), (R_own.r_deepcopy, Q), (R_cas.r_glyph, Q)],
         level_text="partial: effect analysis over the 203 non-mutator methods/functions of the expression algebra and slot/state table comparison for the 9 classes with custom pickling",
         level_note="Trusted: receiver provenance classifier; stores on results of eval/slicing/operators (possibly shared, e.g. slc.eval/mem.eval res.sf) are listed as undecided, not alarmed; the save/restore idiom of cst.signextend is accepted.",
         technique="effect (attribute-store) analysis with receiver provenance + table<->table comparison of pickling state",
@@ -170,7 +170,7 @@ PROPS = {
             "algebra-side aliasing rules R-ALIASRET (comp never hands out itself) and R-OWN (register entries of a mapper are "
             "mapper-owned), R-OWNMERGE (merge never simplifies its callers' maps in place). Does NOT decide leakage through eval paths whose aliasing depends on which rewrite fires."
         ),
-        rules=[(R_c10.r_shmut, Q), (R_c10.r_globalw_sem, Q), (R_c10.r_regtype, Q), (R_cas.r_aliasret, Q), (R_cas.r_own_mapper, Q), (R_own.r_ownmerge, Q)],
+        rules=[(R_c10.r_shmut, Q), (R_c10.r_globalw_sem, Q), (R_c10.r_regtype, Q), (R_cas.r_aliasret, Q), (R_cas.r_own_mapper, Q), (R_own.r_ownmerge, Q), (R_own.r_mappure, Q), (R_own.r_deepcopy, Q)],
         level_text="partial (the core clause): alias/provenance analysis of every mutation site in the architecture layer (364 sites) with one-level helper summaries, and a who-may-write scan over the 1596 functions reachable from semantics; tests never evaluate a stored map after unrelated work",
         level_note="Trusted: receiver provenance is classified by syntactic origin (operands element, env-module binding, fmap of those, constructor result); operator results and helper results are 'unknown' and listed as undecided (134 sites), never alarmed. 190 definite sites on the unchanged tree are genuine (118 confirmed by observing the mutation at run time during triage) and are listed as known findings: the sign flag is stored on shared objects by design in this code base.",
         technique="alias/provenance (taint) analysis of attribute stores with one-level interprocedural summaries + who-may-write effect scan",
@@ -207,7 +207,7 @@ PROPS = {
             "the same group/continuation/sign constants and the signed writer's termination inspects the sign bit. Does NOT decide "
             "agreement with a C compiler for arbitrary definitions nor round-trip equality for all byte strings."
         ),
-        rules=[(R_st.r_walk, Q), (R_st.r_guard, Q), (R_st.r_ptype, Q), (R_st.r_leb, Q)],
+        rules=[(R_st.r_walk, Q), (R_st.r_guard, Q), (R_st.r_ptype, Q), (R_st.r_leb, Q), (R_st.r_psize, Q), (R_st.r_elemadv, Q)],
         level_text="partial: cross-check of sibling implementations (6 walkers, 7 translation sites, 3 LEB128 functions, 10 hasattr guards) on their CFGs; the struct tests never pack a structure with padding or a bit-field",
         level_note="Trusted: the walker template (cursor = first argument of f.align) and the skip-field idiom (`continue` under a test of the field); cross-class deviations of the pointer-size letter set (VarField/CntField translate only 'P') are listed as undecided because they were not confirmed as defects.",
         technique="sibling cross-check of functions implementing one scheme (path check on statement CFGs + table agreement)",
@@ -280,7 +280,7 @@ PROPS = {
             "records every instruction boundary; block.length/raw/support/address are derived from the instruction list only. "
             "Does NOT decide disjointness/coverage of cfg.graph's support for all insertion orders (MemoryZone arithmetic on node lengths)."
         ),
-        rules=[(R_cc.r_sweep, Q), (R_cc.r_blocks, Q)],
+        rules=[(R_cc.r_sweep, Q), (R_cc.r_blocks, Q), (R_cc.r_addvertex, Q)],
         level_text="partial: path counting and must-pass-through on the CFGs of lsweep.sequence / iterblocks / block.__getitem__; the two code tests sweep one x86 sample and never a delay-slot ISA",
         level_note="Trusted: the fetch statement is the assignment from read_instruction; accumulators are found by the append of the loop variable. The graph-insertion clause (add_vertex / __cut_add_vertex) is not claimed.",
         technique="def-use counting on loop paths + must-pass-through on statement CFGs",
@@ -297,7 +297,7 @@ PROPS = {
             "top value; (R-ABSORB) in vec.simplify an undefined alternative is returned itself and can never reach the statements that "
             "rebuild the list of alternatives. Does NOT decide membership of evaluated results for all states (needs values)."
         ),
-        rules=[(R_cc.r_merge, Q), (R_own.r_vecabsorb, Q)],
+        rules=[(R_cc.r_merge, Q), (R_own.r_vecabsorb, Q), (R_cas.r_glyph, Q)],
         level_text="partial: path enumeration of the four transfer loops and reaching-definition closure of the stored value; the single merge test joins two register-only maps",
         level_note="Trusted: vstat/rules/xfer.py (sink / dedup-test recognition), vstat.cfg reaching definitions; value-level clauses (which alternatives evaluate to what) are out of reach.",
         technique="path enumeration of transfer loops + reaching-definitions (def-use) closure",
